@@ -68,6 +68,25 @@ pub fn has_mi_run_in_wrapper(n: &MNode) -> bool {
     n.any(&|k| (k.tag == "mstyle" || k.tag == "mpadded") && k.kids.windows(3).any(|w| w.iter().all(|m| m.tag == "mi" && m.txt().chars().count() == 1)))
 }
 
+/// Input classes for which clean_mathml is known to misbehave (one known finding per class, see
+/// known_findings.json); the first matching class names the violation.
+pub fn input_trigger(input: &MNode) -> Option<&'static str> {
+    let lookalike = regex::Regex::new(r#"xmlns:[[:alpha:]]|class *= *['"](MJX-|data-mjx-)|</?[[:alpha:]]+:"#).unwrap();
+    if input.tokens().iter().any(|t| lookalike.is_match(t.txt())) {
+        Some("text-resembling-markup")
+    } else if !all_tokens_consistent(input) {
+        Some("type-inconsistent-token")
+    } else if has_degenerate(input) {
+        Some("degenerate-child")
+    } else if has_adjacent_mn(input) {
+        Some("adjacent-mn")
+    } else if has_mi_run_in_wrapper(input) {
+        Some("mi-run-in-wrapper")
+    } else {
+        None
+    }
+}
+
 pub fn diff_strings(a: &str, b: &str) -> (usize, String, String) {
     let ac: Vec<char> = a.chars().collect();
     let bc: Vec<char> = b.chars().collect();
@@ -110,18 +129,8 @@ pub fn leaf_roundtrip(input: &MNode, output: &MNode) -> Option<(String, String)>
         lca_of_range(input, Side::Input, p, p + missing.chars().count())
     };
     let mut sig = format!("{}:{}{}", kind, tag, if has_empty { ":empty-child" } else { "" });
-    // text that looks like markup to set_mathml's preprocessing regexes (one root cause, many places)
-    let lookalike = regex::Regex::new(r#"xmlns:[[:alpha:]]|class *= *['"](MJX-|data-mjx-)|</?[[:alpha:]]+:"#).unwrap();
-    if input.tokens().iter().any(|t| lookalike.is_match(t.txt())) {
-        sig = "trigger:text-resembling-markup".to_string();
-    } else if !all_tokens_consistent(input) {
-        sig = "trigger:type-inconsistent-token".to_string();
-    } else if has_degenerate(input) {
-        sig = "trigger:degenerate-child".to_string();
-    } else if has_adjacent_mn(input) {
-        sig = "trigger:adjacent-mn".to_string();
-    } else if has_mi_run_in_wrapper(input) {
-        sig = "trigger:mi-run-in-wrapper".to_string();
+    if let Some(t) = input_trigger(input) {
+        sig = format!("trigger:{}", t);
     }
     let detail = format!("visible input  = {:?}\nvisible output = {:?}\nat char {}: input has {:?}, output has {:?}", vi, vo, p, missing, extra);
     Some((sig, detail))
